@@ -134,6 +134,19 @@ def fps(items: List[Dict[str, Any]], lang: str, names: Set[str], members: Set[st
     return clist(f"{v}%Z" for v in out)
 
 
+def names_fp(names: Sequence[str]) -> int:
+    """mirrors EmitCheck.names_fp"""
+    acc = 11
+    for x in names:
+        acc = mix(acc, hs(x))
+    return acc
+
+
+def py_attrs_fps(items: List[Dict[str, Any]]) -> str:
+    """attribute names of every class of a generated Python module, class by class (EmitCheck.py_attrs_fp)"""
+    return clist(f"{names_fp(it['attrs'])}%Z" for it in items if it["k"] == "decl" and it["kind"] == "DkPyClass")
+
+
 def conv_fp(p: str, s_: str, u: str) -> int:
     return mix(mix(hs(p), hs(s_)), hs(u))
 
